@@ -27,7 +27,11 @@ LEVEL_TEXT = ('The text layer of the MDL formats (fixed-width formatting, int()/
               'seek) is an executable Lean model mirrored statement by statement from the readers and writers; round-trip '
               'theorems are proved about exactly these model functions for all field values / all well-formed records, and '
               'the model is tied to today\'s source by regenerated tables and by differential testing of writers, parsers and '
-              'framing on generated and corrupted files. Atom/bond construction (create_molecule), wedge geometry and the '
+              'framing on generated and corrupted files. The data-item domain and normalisation are written from the CTfile '
+              'specification (decidable predicates) and the proved read(write(meta)) = normalise(meta) is additionally evaluated on '
+              'the real writers/readers for every generated dictionary inside that domain; the forwarding of every documented '
+              'reader option to every helper call site is a table regenerated from the source with obligations from the '
+              'docstrings, backed by a behavioural oracle per reader x option x record kind. Atom/bond construction (create_molecule), wedge geometry and the '
               'lxml-based MRV path are not modelled: they are validated by a write->read oracle on the real code. That is '
               'translation validation with partial proofs, not a proof about the Python text.')
 LEVEL_NOTE = ('Lean kernel; gen_mdl translator (literal tables via AST); hand transcription of the text layer validated by '
